@@ -5,7 +5,11 @@ RULE = ("MC: HsManager.tla exhaustively (retries 2, queue bound 2, timer entries
         "structural invariants. T: seeded schedules on 4 complete nodes with virtual time (try interval = 1 tick): retransmission "
         "times, give-up after `retries` attempts (pending entry and index gone), queue growth, release of queued packets in order "
         "on completion, hand-over of the queue after a wrong responder; every step validated by TLC incl. the back-off invariant "
-        "C32_NoEarlyRetry; distinct = traces. Burst: HsManager.tla's TunSendBurst (a tun read that is a TSO/USO superpacket) -- MC "
+        "C32_NoEarlyRetry and, at the end of every try interval, NoOverdue (no pending handshake has fallen out of the timer: "
+        "its own back-off ran out at most two intervals ago); every trace ends with a silent drain after which nothing may be "
+        "pending (Quiet); prologue in debug-level worlds: an unauthentic copy of the answer is being handled -- its goroutine parked "
+        "at its log call inside continueHandshake, holding the handshake's lock -- when the retransmission timer fires; "
+        "distinct = traces. Burst: HsManager.tla's TunSendBurst (a tun read that is a TSO/USO superpacket) -- MC "
         "with SpecBurst, and vectors (Vec_HsBurst.tla, MaxQueue = 100) run on the real consumeInsidePacket / packet store / "
         "continueHandshake release")
 ASSUMPTIONS = _hs.ASSUME_COMMON + [
@@ -25,14 +29,15 @@ ASSUMPTIONS = _hs.ASSUME_COMMON + [
 
 
 def relevant(ln, fl):
-    return ln.get('ev') in ('Retry', 'TunSend') or (ln.get('ev') == 'Deliver' and ln.get('kind') == 'handshake')
+    return ln.get('ev') in ('Retry', 'TunSend', 'Quiet', 'Garbled', 'Tick') or (ln.get('ev') == 'Deliver' and ln.get('kind') == 'handshake')
 
 
 def run(ctx):
     _hs.mc(ctx)
     res, tf = _hs.record(ctx)
     ctx.traces += _hs.validate(ctx, tf, relevant, strict_backoff=True)
-    ctx.require_actions('ev:Deliver', 'ev:TunSend', 'ev:Retry', 'flush-interleave-prologue')
+    ctx.require_actions('ev:Deliver', 'ev:TunSend', 'ev:Retry', 'ev:Quiet', 'flush-interleave-prologue', 'garbled-reply-prologue',
+                        'garbled-reply:parked-under-handshake-lock')
     burst(ctx)
 
 
